@@ -236,6 +236,11 @@ func workerMain(m *Monitor, tier string, seed uint64, shard, nshards int, skip m
 		res.Cases++
 		curCase.Store(-1)
 		last = c
+		if res.Abandoned {
+			writeResult(out, res)
+			os.Remove(pend)
+			os.Exit(5)
+		}
 	}
 	if m.PostWorker != nil {
 		c := last
@@ -532,6 +537,17 @@ func parentMain(m *Monitor, tier string, seed uint64) int {
 					mu.Lock()
 					total.Merge(res)
 					mu.Unlock()
+					return
+				}
+				if res != nil && res.Abandoned && rerr == nil {
+					// the worker reached a verdict and gave itself up (leaked goroutines): its
+					// violations decide the run, the rest of this shard is not needed
+					mu.Lock()
+					total.Merge(res)
+					mu.Unlock()
+					if len(res.Violations) > 0 {
+						abortAll()
+					}
 					return
 				}
 				if aborted() {
